@@ -75,6 +75,8 @@ fn apply(d: &mut Decompressor, op: &Op) -> Res {
 }
 
 struct Fixture {
+    raw_ref_ops: usize,
+    packed_ref_ops: usize,
     path: String,
     ops: Vec<Op>,
     truth: HashMap<Op, Res>,
@@ -83,7 +85,23 @@ struct Fixture {
 }
 
 fn make_fixture(dir: &str, seed: u64, which: u64, many: bool) -> Result<Fixture, String> {
-    let mut rng = Rng::derive(seed, 0xC08, which);
+    // a fixture is only useful if it has LZ groups, one of them with a raw-stored reference
+    let mut last = Err("no attempt".to_string());
+    for attempt in 0..30 {
+        last = make_fixture_once(dir, seed, which, many, attempt);
+        match &last {
+            Ok(fx) if fx.raw_ref_ops > 0 && fx.packed_ref_ops > 0 => return last,
+            Ok(fx) => {
+                let _ = std::fs::remove_file(&fx.path);
+            }
+            Err(_) => {}
+        }
+    }
+    last
+}
+
+fn make_fixture_once(dir: &str, seed: u64, which: u64, many: bool, attempt: u64) -> Result<Fixture, String> {
+    let mut rng = Rng::derive(seed, 0xC08 + 0x1000 * attempt, which);
     let mut p = gen::params(&mut rng, true);
     p.threads = 2;
     p.segment_size = *rng.pick(&[50usize, 80, 120]);
@@ -155,12 +173,29 @@ fn make_fixture(dir: &str, seed: u64, which: u64, many: bool) -> Result<Fixture,
         Op::CompressionStats,
         Op::CloneThenList,
     ];
-    for g in lz_groups.iter().take(1).chain(lz_groups.iter().rev().take(1)) {
-        ops.push(Op::RefSegment(*g));
-    }
-    // reference groups that are stored raw are the interesting ones; add a few more groups
-    for g in lz_groups.iter().skip(1).step_by((lz_groups.len() / 3).max(1)).take(2) {
-        ops.push(Op::RefSegment(*g));
+    // reference segments: a few groups whose reference part is stored raw (metadata 0) and a
+    // few whose reference is compressed - looked up through the container API
+    let (mut raw_ref_ops, mut packed_ref_ops) = (0usize, 0usize);
+    {
+        let mut a = ragc_common::Archive::new_reader();
+        a.open(&path).map_err(|e| format!("archive open failed: {:#}", e))?;
+        let (mut raw, mut packed) = (Vec::new(), Vec::new());
+        for g in &lz_groups {
+            if let Some(id) = a.get_stream_id(&ragc_common::stream_ref_name(3000, *g)) {
+                if let Ok((_, meta)) = a.get_part_by_id(id, 0) {
+                    if meta == 0 {
+                        raw.push(*g);
+                    } else {
+                        packed.push(*g);
+                    }
+                }
+            }
+        }
+        for g in raw.iter().take(2).chain(raw.iter().rev().take(1)).chain(packed.iter().take(1)).chain(packed.iter().rev().take(1)) {
+            ops.push(Op::RefSegment(*g));
+        }
+        raw_ref_ops = raw.len().min(3);
+        packed_ref_ops = packed.len().min(2);
     }
     let mut seen = HashSet::new();
     ops.retain(|o| seen.insert(o.clone()));
@@ -170,7 +205,7 @@ fn make_fixture(dir: &str, seed: u64, which: u64, many: bool) -> Result<Fixture,
         let mut d = drive::open(&path).map_err(|e| format!("open failed: {:#}", e))?;
         truth.insert(op.clone(), apply(&mut d, op));
     }
-    Ok(Fixture { path, ops, truth, p, set })
+    Ok(Fixture { raw_ref_ops, packed_ref_ops, path, ops, truth, p, set })
 }
 
 fn history_json(h: &[&Op]) -> String {
@@ -227,6 +262,10 @@ pub fn run(args: &Args, rep: &mut Report) {
             }
         }
         let nops = fx.ops.len();
+        if args.shard == 0 {
+            rep.count("fixtures_with_raw_stored_reference_ops", (fx.raw_ref_ops > 0) as u64);
+            rep.count("fixtures_with_compressed_reference_ops", (fx.packed_ref_ops > 0) as u64);
+        }
         let mut idx = 0u64;
         let mut fail = 0;
         // all histories of length 1..=L
